@@ -75,8 +75,9 @@ let main (run : string list -> unit) =
   Sys.set_signal Sys.sigalrm (Sys.Signal_handle (fun _ -> raise Model_timeout));
   let timeouts = ref 0 in
   List.iter (fun tr ->
-    (* after a few timed-out traces the remaining ones get a short limit: the run must end *)
-    ignore (Unix.alarm (if !timeouts < 3 then 20 else 2));
+    (* generous: the longest legitimate thorough-tier traces take tens of seconds on a loaded machine (list-based
+       model, one observation per line); after a few timed-out traces the remaining ones get a short limit *)
+    ignore (Unix.alarm (if !timeouts < 3 then 600 else 5));
     (match split_ws (List.hd tr) with
      | _ :: id :: _ -> Printf.printf "T %s\n" id
      | _ -> ());
